@@ -112,11 +112,12 @@ def assignment_engine(chk, quick):
     Also the engine half of property C02 (C02a): checks/c02.py calls this with its own Check object."""
     if quick:
         runs = [("asg-2x3-tie", asg_consts(2, 3, "tie", True)), ("asg-3x2-tie", asg_consts(3, 2, "tie", True)),
-                ("asg-3x3-coarse", asg_consts(3, 3, "coarse", False))]
+                ("asg-3x3-coarse", asg_consts(3, 3, "coarse", False)), ("asg-2x3-fine", asg_consts(2, 3, "fine", False))]
     else:
         runs = [("asg-2x3-tie", asg_consts(2, 3, "tie", True)), ("asg-3x2-tie", asg_consts(3, 2, "tie", True)),
                 ("asg-1x3-tie", asg_consts(1, 3, "tie", True)), ("asg-3x1-tie", asg_consts(3, 1, "tie", True)),
-                ("asg-2x2-tie", asg_consts(2, 2, "tie", True)), ("asg-3x3-full", asg_consts(3, 3, "full", False))]
+                ("asg-2x2-tie", asg_consts(2, 2, "tie", True)), ("asg-3x3-full", asg_consts(3, 3, "full", False)),
+                ("asg-2x3-fine", asg_consts(2, 3, "fine", False)), ("asg-3x2-fine", asg_consts(3, 2, "fine", False))]
     first = None
     for name, consts in runs:
         r = _gen(chk, "GenA.tla", name, consts, timeout=1500)
